@@ -13,8 +13,12 @@ FirstBadVertex(obs, want) ==
   LET bad == {k \in 1..Len(want) : k > Len(obs) \/ ~SameVertex(obs[k], want[k])}
   IN IF bad = {} THEN 0 ELSE Min(bad)
 BadSlot(o, w) == LET bad == {i \in 1..22 : ~SameF(o.f[i], w.f[i])} IN IF bad = {} THEN 23 ELSE Min(bad)
+IsBig(w) == "big" \in DOMAIN w
+\* for files logged as header part + length the library's re-parse is projected without vertex lists
+AsBig(w) == [nv |-> w.nv, vertices |-> <<>>, big |-> TRUE, indices |-> w.indices, subs |-> w.subs]
 PartMatches(o, w, sig, pfx, full) ==
-  /\ LET k == IF o.nv # w.nv \/ Len(o.vertices) # Len(w.vertices) THEN -1 ELSE FirstBadVertex(o.vertices, w.vertices)
+  /\ IF IsBig(w) THEN Expect(l, pfx \o "-vertex-count", sig, w.nv, o.nv) ELSE
+     LET k == IF o.nv # w.nv \/ Len(o.vertices) # Len(w.vertices) THEN -1 ELSE FirstBadVertex(o.vertices, w.vertices)
      IN IF k = 0 THEN TRUE
         ELSE IF k = -1 THEN Mismatch(l, pfx \o "-vertex-count", sig, w.nv, o.nv)
         ELSE Mismatch(l, pfx \o "-vertex", sig \o <<k, BadSlot(o.vertices[k], w.vertices[k])>>, w.vertices[k], o.vertices[k])
@@ -50,8 +54,8 @@ Parse(e) ==
      ELSE UNCHANGED <<geom, orig>>
 
 \* ---- C07: what must hold of a written file ----------------------------------
-Facts(W, sig) ==
-  LET hf == HeaderFacts(W)
+Facts(W, flen, sig) ==
+  LET hf == HeaderFactsLen(W, flen)
   IN /\ Require(l, "mdl-sections-disjoint", sig, hf.disjoint)
      /\ Require(l, "mdl-sections-in-bounds", sig, hf.inBounds)
      /\ Require(l, "mdl-sections-sized", sig, hf.sized)
@@ -62,18 +66,23 @@ Facts(W, sig) ==
 Written(e, want, sig) ==
   IF ~(IsSome(e.res.written)) THEN Mismatch(l, "mdl-write-outcome", sig, "bytes", e.res.written)
   ELSE LET W == e.res.written.v.v
+           flen == e.res.written.v.len
+           whole == Len(W) = flen           \* big files are logged as header part + length
            L == Layout(W)
-       IN /\ Facts(W, sig)
+       IN /\ Facts(W, flen, sig)
           /\ Require(l, "mdl-written-lod-count", sig, L.nLod = Len(want))
           /\ IF ~IsSome(e.res.reparsed) THEN Mismatch(l, "mdl-reparse-outcome", sig, "a model", e.res.reparsed)
              ELSE LET o == e.res.reparsed.v.v
                   IN \A i \in 1..Len(want) : \A p \in 1..Len(want[i]) :
                        IF i > Len(o.lods) \/ p > Len(o.lods[i].parts)
                        THEN Mismatch(l, "mdl-reparse-part-missing", sig \o <<i, p>>, "part", "none")
-                       ELSE /\ PartMatches(o.lods[i].parts[p], want[i][p], sig \o <<i, p>>, "mdl-reparse", FALSE)
+                       ELSE /\ PartMatches(o.lods[i].parts[p], IF whole THEN want[i][p] ELSE AsBig(want[i][p]),
+                                           sig \o <<i, p>>, "mdl-reparse", FALSE)
                             \* and the specification's own reading of the written bytes agrees
-                            /\ LET sp == PartOf(W, L, i, LodRec(W, L, i).mesh_index + p - 1)
-                               IN PartMatches(sp, want[i][p], sig \o <<i, p>>, "mdl-written", FALSE)
+                            /\ IF whole /\ ~IsBig(want[i][p])
+                               THEN LET sp == PartOf(W, L, i, LodRec(W, L, i).mesh_index + p - 1)
+                                    IN PartMatches(sp, want[i][p], sig \o <<i, p>>, "mdl-written", FALSE)
+                               ELSE TRUE
 Write(e) ==
   /\ Written(e, geom[e.h], Sig(e))
   \* writing an unedited model: names and header data survive too
@@ -82,18 +91,26 @@ Write(e) ==
               O == orig[e.h]
           IN /\ Expect(l, "mdl-rewrite-material-names", Sig(e), MaterialNames(O, Layout(O)), e.res.reparsed.v.v.materials)
              /\ Expect(l, "mdl-rewrite-bone-names", Sig(e), BoneNames(O, Layout(O)), e.res.reparsed.v.v.bones)
-             /\ Require(l, "mdl-rewrite-length", Sig(e), Len(W) = Len(O))
+             /\ Require(l, "mdl-rewrite-length", Sig(e), e.res.written.v.len = Len(O))
              /\ IF Len(W) = Len(O) /\ W # O
                 THEN Mismatch(l, "mdl-rewrite-bytes", Sig(e), "same bytes", Min({k \in 1..Len(O) : W[k] # O[k]}) - 1) ELSE TRUE
      ELSE TRUE
   /\ UNCHANGED <<geom, orig>>
 Replace(e) ==
-  LET newPart == [nv |-> Len(e.vertices), vertices |-> e.vertices, indices |-> e.indices,
+  LET small == "vertices" \in DOMAIN e
+      subsOf == [s \in 1..Len(geom[e.h][e.lod + 1][e.part + 1].subs) |->
+                   IF s <= Len(e.subs) THEN e.subs[s] ELSE geom[e.h][e.lod + 1][e.part + 1].subs[s]]
+      newPart == IF ~small THEN [nv |-> e.nv, vertices |-> <<>>, big |-> TRUE, indices |-> e.indices, subs |-> subsOf] ELSE
+                 [nv |-> Len(e.vertices), vertices |-> e.vertices, indices |-> e.indices,
                   subs |-> [s \in 1..Len(geom[e.h][e.lod + 1][e.part + 1].subs) |->
                               IF s <= Len(e.subs) THEN e.subs[s] ELSE geom[e.h][e.lod + 1][e.part + 1].subs[s]]]
       g2 == [geom[e.h] EXCEPT ![e.lod + 1][e.part + 1] = newPart]
   IN /\ Require(l, "mdl-edit-outcome", Sig(e), IsValue(e.res.edit))
-     /\ Written(e, g2, Sig(e))
+     \* a replacement of one mesh is followed by re-submissions of the following meshes of the LOD with shifted
+     \* ranges; the property speaks about the state once every mesh of the LOD has been supplied consistently
+     /\ IF e.settled THEN Written(e, g2, Sig(e)) ELSE TRUE
+     /\ IF e.settled /\ ~small
+        THEN Require(l, "mdl-reparse-echo", Sig(e), e.res.echo_same.some /\ e.res.echo_same.v) ELSE TRUE
      /\ geom' = [geom EXCEPT ![e.h] = g2] /\ UNCHANGED orig
 \* shape edits do not change vertices already present, indices or sub-meshes (added vertices are appended)
 ShapeEdit(e) ==
